@@ -50,10 +50,7 @@ class _AddressList(Writeable):
         if self.headers:
             addresses: list[Address] = []
             for header in self.headers:
-                if isinstance(header, SingleAddressHeader):
-                    addresses.append(header.address)
-                else:
-                    addresses.extend(header.addresses)
+                addresses.extend(header.addresses)
             return List([self._parse(address)
                          for address in addresses])
         else:
